@@ -193,7 +193,8 @@ ASSUME = ['non-Exception BaseExceptions propagate (stated: C02_total); exception
 
 
 def main(argv):
-    return run_check('C02', [FaultStream()], argv, trusted_base=TRUSTED, assumptions=ASSUME)
+    return run_check('C02', [FaultStream()], argv, trusted_base=TRUSTED, assumptions=ASSUME,
+                     translated=('guard',))
 
 
 if __name__ == '__main__':
